@@ -371,6 +371,26 @@ func InlineOneLiners(p *core.Program, info *types.Info, scope ast.Node, e ast.Ex
 		if a != x.X || b != x.Y {
 			return &ast.BinaryExpr{X: a, Op: x.Op, OpPos: x.OpPos, Y: b}
 		}
+	case *ast.UnaryExpr:
+		if x.Op == token.NOT {
+			if a := InlineOneLiners(p, info, scope, x.X, pkgPath, depth); a != x.X {
+				return &ast.UnaryExpr{Op: x.Op, OpPos: x.OpPos, X: a}
+			}
+		}
+	case *ast.Ident:
+		// a hoisted condition: a bool local with one definition that is not a call result
+		if v, ok := core.ObjOf(info, x).(*types.Var); ok && !v.IsField() && scope != nil && types.Identical(v.Type().Underlying(), types.Typ[types.Bool]) {
+			if o, ok := SoleOrigin(info, scope, x); ok && o.Expr != nil && o.Op == 0 && !o.Range && o.Res < 0 && !o.Param && ast.Unparen(o.Expr) != ast.Expr(x) {
+				if _, isConst := info.Types[o.Expr]; !isConst || info.Types[o.Expr].Value == nil {
+					switch ast.Unparen(o.Expr).(type) {
+					case *ast.BinaryExpr, *ast.UnaryExpr:
+						if len(Origins(info, scope, x)) == 1 {
+							return InlineOneLiners(p, info, scope, o.Expr, pkgPath, depth+1)
+						}
+					}
+				}
+			}
+		}
 	}
 	return e
 }
@@ -420,7 +440,7 @@ func AnalyseParser(c *core.Ctx) *Parser {
 	}
 	curProg = c.Program
 	p := &Parser{Fn: fn, Info: fn.Pkg.TypesInfo, G: cfgq.Of(c.Program, fn), c: c}
-	p.Fl = NewFlow(p.G)
+	p.Fl = NewFlow(p.G).Inlining(c.Program, p.Info, fn.Decl, fn.Pkg.PkgPath)
 	body := fn.Decl.Body
 	// the decode statement: a tuple assignment from pkg/redis.MustDecodeOpt
 	var decodes []*ast.AssignStmt
@@ -551,16 +571,20 @@ type Sender struct {
 	G    *cfgq.Graph
 	Fl   *Flow
 
-	SendFunc types.Object // the local holding the closure
-	Lit      *ast.FuncLit
-	LG       *cfgq.Graph
-	LFl      *Flow
-	Tunnel   types.Object // the []cmdDetail batch
-	Range    *ast.RangeStmt
-	RangePt  cfgq.Point // evaluation of the ranged expression
-	ItemVar  types.Object
-	Data     []*SendSite // Conn.Send calls (direct or through a forwarding wrapper) in the range body
-	Conn     types.Object
+	SendFunc  types.Object // the local holding the closure
+	Lit       *ast.FuncLit
+	LG        *cfgq.Graph
+	LFl       *Flow
+	Tunnel    types.Object // the []cmdDetail batch
+	X         *XGraph      // the closure with the helpers of the package inlined
+	RC        *XCtx        // the frame that holds the range over the batch (the closure itself, or a helper)
+	RangeX    XPoint       // evaluation of the ranged expression
+	RangeExpr ast.Expr     // the ranged expression in the closure's vocabulary
+	Range     *ast.RangeStmt
+	RangePt   cfgq.Point // RangeX when the range is in the closure itself
+	ItemVar   types.Object
+	Data      []*SendSite // Conn.Send calls (direct or through a forwarding wrapper) in the range body
+	Conn      types.Object
 
 	Select   *ast.SelectStmt
 	RecvComm *ast.AssignStmt // item := <-ds.sendBuf
@@ -604,6 +628,7 @@ type SendSite struct {
 	Args     []ast.Expr
 	Ellipsis bool        // the last element of Args is spread (x...)
 	Fatal    bool        // the wrapper itself ends the goroutine when Send fails (no error comes back)
+	Lost     bool        // the wrapper swallows the error of Send (neither fatal nor returned)
 	Wrapper  *types.Func // nil for a direct call
 }
 
@@ -622,6 +647,7 @@ type wrapInfo struct {
 	conn, cmd, args int      // parameter positions (conn is -1 when the connection is a captured variable)
 	connExpr        ast.Expr // the captured connection (closures)
 	fatal           bool
+	lost            bool
 }
 
 var wrapMemo = map[interface{}]*wrapInfo{}
@@ -811,10 +837,14 @@ func sendWrapper(h *Helper) *wrapInfo {
 			eq, ok := EqFact(ft, IsObj(info, ev), func(x ast.Expr) bool { return core.IsNil(info, x) })
 			return ok && eq
 		}
-		if ev == nil || g.Path(cfgq.Query{From: sp, After: true, AvoidEdge: fl.Edge(isNil), TargetExit: cfgq.NormalExit}) != nil {
+		if ev == nil {
 			return nil
 		}
-		w.fatal = true
+		if g.Path(cfgq.Query{From: sp, After: true, AvoidEdge: fl.Edge(isNil), TargetExit: cfgq.NormalExit}) != nil {
+			w.lost = true // the wrapper carries on after a failed Send and tells nobody
+		} else {
+			w.fatal = true
+		}
 	default:
 		return nil
 	}
@@ -832,7 +862,7 @@ func SendOf(info *types.Info, call *ast.CallExpr) *SendSite {
 	if w == nil || len(call.Args) <= w.cmd || len(call.Args) <= w.conn {
 		return nil
 	}
-	s := &SendSite{Call: call, Conn: w.connExpr, Fatal: w.fatal, Ellipsis: call.Ellipsis.IsValid()}
+	s := &SendSite{Call: call, Conn: w.connExpr, Fatal: w.fatal, Lost: w.lost, Ellipsis: call.Ellipsis.IsValid()}
 	if h.Fn != nil {
 		s.Wrapper = h.Fn.Obj
 	}
@@ -895,14 +925,22 @@ func AnalyseSender(c *core.Ctx) *Sender {
 	}
 	curProg = c.Program
 	s := &Sender{Fn: fn, Info: fn.Pkg.TypesInfo, G: cfgq.Of(c.Program, fn)}
-	s.Fl = NewFlow(s.G)
+	s.Fl = NewFlow(s.G).Inlining(c.Program, s.Info, fn.Decl, fn.Pkg.PkgPath)
 	info := s.Info
 	und := func(key string, pos token.Pos, format string, a ...interface{}) *Sender {
 		c.Undecidedf("model", "sender/"+key, pos, format, a...)
 		return nil
 	}
-	// the closure: a literal bound to a local whose body ranges over a local []cmdDetail
-	var cands []*ast.AssignStmt
+	// the closure: a literal bound to a local whose body -- or a helper of the package it calls --
+	// ranges over the []cmdDetail batch
+	type cand struct {
+		as *ast.AssignStmt
+		x  *XGraph
+		rc *XCtx
+		rs *ast.RangeStmt
+		n  int
+	}
+	var cands []cand
 	core.Inspect(fn.Decl.Body, func(n ast.Node) bool {
 		as, ok := n.(*ast.AssignStmt)
 		if !ok || len(as.Lhs) != 1 || len(as.Rhs) != 1 {
@@ -912,39 +950,45 @@ func AnalyseSender(c *core.Ctx) *Sender {
 		if !ok {
 			return true
 		}
-		hit := false
-		core.Inspect(fl, func(m ast.Node) bool {
-			if r, ok := m.(*ast.RangeStmt); ok && sliceOfCmd(info.TypeOf(r.X)) {
-				hit = true
+		x := NewXGraph(c.Program, cfgq.OfLit(c.Program, info, fl), info, fn.Decl, fn.Pkg.PkgPath)
+		cd := cand{as: as, x: x}
+		seen := map[*XCtx]bool{}
+		for _, pt := range x.Points(func(XNode) bool { return true }) {
+			if seen[pt.C] {
+				continue
 			}
-			return true
-		})
-		if hit {
-			cands = append(cands, as)
+			seen[pt.C] = true
+			core.Inspect(pt.C.G.Body, func(m ast.Node) bool {
+				if r, ok := m.(*ast.RangeStmt); ok && sliceOfCmd(pt.C.Info.TypeOf(r.X)) {
+					cd.n++
+					cd.rc, cd.rs = pt.C, r
+				}
+				return true
+			})
+		}
+		if cd.n > 0 {
+			cands = append(cands, cd)
 		}
 		return true
 	})
 	if len(cands) != 1 {
 		return und("closure", fn.Decl.Pos(), "expected one local closure that ranges over the []cmdDetail batch, found %d", len(cands))
 	}
-	s.SendFunc = core.ObjOf(info, cands[0].Lhs[0])
-	s.Lit = ast.Unparen(cands[0].Rhs[0]).(*ast.FuncLit)
-	s.LG = cfgq.OfLit(c.Program, info, s.Lit)
-	s.LFl = NewFlow(s.LG)
-	var ranges []*ast.RangeStmt
-	core.Inspect(s.Lit, func(m ast.Node) bool {
-		if r, ok := m.(*ast.RangeStmt); ok && sliceOfCmd(info.TypeOf(r.X)) {
-			ranges = append(ranges, r)
-		}
-		return true
-	})
-	if len(ranges) != 1 {
-		return und("range", s.Lit.Pos(), "expected one range over the batch in the closure, found %d", len(ranges))
+	cd := cands[0]
+	s.SendFunc = core.ObjOf(info, cd.as.Lhs[0])
+	s.Lit = ast.Unparen(cd.as.Rhs[0]).(*ast.FuncLit)
+	s.LG = cd.x.Root.G
+	s.LFl = cd.x.Root.Fl
+	s.X, s.RC = cd.x, cd.rc
+	if cd.n != 1 {
+		return und("range", s.Lit.Pos(), "expected one range over the batch in the closure, found %d", cd.n)
 	}
-	s.Range = ranges[0]
-	// the batch variable: the local mentioned by the ranged expression
+	s.Range = cd.rs
+	rinfo := s.RC.Info
+	// the batch variable: the local of sendTargetCommand the ranged expression stands for
+	s.RangeExpr = s.X.Resolve(s.RC, s.Range.X)
 	var tun types.Object
-	ast.Inspect(s.Range.X, func(m ast.Node) bool {
+	ast.Inspect(s.RangeExpr, func(m ast.Node) bool {
 		if id, ok := m.(*ast.Ident); ok && tun == nil {
 			if v, ok := core.ObjOf(info, id).(*types.Var); ok && sliceOfCmd(v.Type()) {
 				tun = v
@@ -953,24 +997,28 @@ func AnalyseSender(c *core.Ctx) *Sender {
 		return true
 	})
 	if tun == nil {
-		return und("batch", s.Range.Pos(), "cannot identify the batch variable in `%s`", c.Src(s.Range.X))
+		return und("batch", s.Range.Pos(), "cannot identify the batch variable in `%s`", c.Src(s.RangeExpr))
 	}
 	s.Tunnel = tun
-	var ok bool
-	if s.RangePt, ok = s.LG.Find(s.Range.X); !ok {
-		return und("range", s.Range.Pos(), "range expression not in the closure's control-flow graph")
+	rp, ok := s.RC.G.Find(s.Range.X)
+	if !ok {
+		return und("range", s.Range.Pos(), "range expression not in the control-flow graph")
+	}
+	s.RangeX = XPoint{s.RC, rp}
+	if s.RC == s.X.Root {
+		s.RangePt = rp
 	}
 	if id, isID := s.Range.Value.(*ast.Ident); isID {
-		s.ItemVar = core.ObjOf(info, id)
+		s.ItemVar = core.ObjOf(rinfo, id)
 	}
 	if s.ItemVar == nil {
 		return und("range", s.Range.Pos(), "the range over the batch does not bind the element")
 	}
 	core.Inspect(s.Range.Body, func(m ast.Node) bool {
 		if call, ok := m.(*ast.CallExpr); ok {
-			if site := SendOf(info, call); site != nil {
+			if site := SendOf(rinfo, call); site != nil {
 				s.Data = append(s.Data, site)
-				if id, ok := ast.Unparen(site.Conn).(*ast.Ident); ok {
+				if id, ok := ast.Unparen(s.X.Resolve(s.RC, site.Conn)).(*ast.Ident); ok {
 					s.Conn = core.ObjOf(info, id)
 				}
 			}
